@@ -17,6 +17,7 @@ import (
 type Case struct {
 	Script    world.Script
 	Discovery bool
+	Seg       int64 // subscriber-wide segment depth limit (-1: no segmentation)
 }
 
 func genCase(t *rapid.T) Case {
@@ -59,7 +60,7 @@ func genCase(t *rapid.T) Case {
 	for i := 0; i < np; i++ {
 		sc.Steps = append(sc.Steps, world.Step{Op: "post", P: rapid.IntRange(0, k-1).Draw(t, "pp2"), N: rapid.IntRange(0, 6).Draw(t, "postkind2")})
 	}
-	return Case{Script: sc, Discovery: rapid.Bool().Draw(t, "discovery")}
+	return Case{Seg: rapid.SampledFrom([]int64{-1, -1, 1, 2}).Draw(t, "seg"), Script: sc, Discovery: rapid.Bool().Draw(t, "discovery")}
 }
 
 func runCase(t *testing.T) func(Case) pbt.Result {
@@ -78,7 +79,7 @@ func runCase(t *testing.T) func(Case) pbt.Result {
 		synctest.Test(t, func(t *testing.T) {
 			w := world.New()
 			defer w.Close()
-			e, err := world.NewExec(w, c.Script, c.Discovery, dagsync.SegmentDepthLimit(-1))
+			e, err := world.NewExec(w, c.Script, c.Discovery, dagsync.SegmentDepthLimit(segOf(c)))
 			lastExec = e
 			if err != nil {
 				viol = "NewSubscriber: " + err.Error()
@@ -250,4 +251,12 @@ func TestC15_Scripts(t *testing.T) {
 		Rule: "scripts over 1..3 publishers, one real subscriber and 0..5 listeners: publish, announce, announce with unusable sender addresses, explicit sync, explicit entries sync, let the virtual clock pass the idle-handler TTL (also while a sync is parked), hold / open a gate (so that explicit and announce-triggered syncs are parked at any request), register / cancel / read listeners; Close is called 1..3 times (concurrently when the first has not returned) at a drawn point; the remaining steps and drawn post-close calls (SyncAdChain, SyncEntries, Announce, OnSyncFinished, GetLatestSync, RemoveHandler, Close) follow; then all gates open and exact quiescence is reached; oracle: every call returned (none durably blocked at quiescence); explicit syncs that were running when Close was called finished successfully; from the moment the first Close returned no hook call, store write or notification happened (world counters frozen, sampled after every step); every listener channel is closed; Close returns nil every time; sync calls issued after Close returned fail; no panic; the bubble drains to zero goroutines. Non-trivial: Close overlapped a held sync, >= 2 concurrent closers, or a call after Close returned; distinct by case.",
 		Assumptions: []string{"requests of a cancelled sync may still reach the server after Close (net/http write loop); request arrivals are not part of the post-close silence oracle"},
 	}, genCase, runCase(t))
+}
+
+// segOf returns the case's segment depth limit (replay files written before the field existed decode to 0 = unset).
+func segOf(c Case) int64 {
+	if c.Seg == 0 {
+		return -1
+	}
+	return c.Seg
 }
